@@ -59,6 +59,26 @@ def run(tier, replay=None):
             if tier == "thorough" or n == 4:
                 common.selftest_library(r, ev, "C02")
                 first = False
+    # (C) larger complexities without the deduplication rounds: trees_n / all_equations_n produced by the same calls main makes
+    big = [("core_maths", 6)] if tier == "quick" else [("core_maths", 6), ("core_maths", 7), ("ext_maths", 5), ("keep_duplicates", 4)]
+    import types, os
+    from harness import lib as _lib, libio, libproj, coord
+    for name, n in big:
+        out = os.path.join(s, "c02_strings_%s_%d" % (name, n))
+        res = coord.run_ranks(1, "harness.targets:gen_strings", (S[name], n, out), s, timeout=3000)
+        if res["status"] != "ok":
+            r.violation("gen_crash:%s:n%d" % (name, n), "tree and function lists of %s n=%d were not produced: %s\n%s" % (name, n, res["detail"], coord.tail(res["out"][0], 8)), {"runname": name, "n": n})
+            continue
+        L = types.SimpleNamespace(dir=out, n=n, runname=name, orig_trees=libio.read_trees(os.path.join(out, "orig_trees_%d.txt" % n)),
+                                  extra_trees=libio.read_trees(os.path.join(out, "extra_trees_%d.txt" % n)), trees=libio.read_trees(os.path.join(out, "trees_%d.txt" % n)),
+                                  all_eq=libio.read_lines(os.path.join(out, "all_equations_%d.txt" % n)), uniq=[], matches=[], inv_subs=[],
+                                  aifeyn=libio.read_floats(os.path.join(out, "aifeyn_%d.txt" % n)))
+        ev, failed, det, _ = common.judge_library(r, L, "strings_%s_n%d" % (name, n), common.C02_CLAUSES, c03=False, full=False)
+        lines = [e for e in ev if e["kind"] == "line"]
+        for i, cl in sorted(failed.items())[:10]:
+            e = ev[i]
+            r.violation("%s:n%d:line%s" % (name, n, e.get("i", "hdr")), "Library.tla clauses %s violated: %s" % (cl, det[i]), {"runname": name, "n": n, "event": e})
+        r.add("library_strings_only", evaluations=len(lines), nontrivial=sum(1 for e in lines if e["clsTree"] >= 0), traces=1, **{"%s_n%d" % (name, n): len(lines)})
     r.cov["rule"] = ("(A) every labelled tree TLC enumerates: node_to_string == Trees!Infix token for token; (B) every line of every generated "
                      "library: P1 class of the tree (independent evaluator) vs P1 class of the stored string parsed by the generation table and "
                      "by Likelihood.run_sympify; non-trivial = lines whose tree is finite at >= 3 of the 24 generic points")
